@@ -192,6 +192,22 @@ func specialReplay(in io.Reader, raw bool, args []string) (*Summary, error) {
 					}
 				}
 			}
+			// Beta(a,b) = Gamma(a) Gamma(b) / Gamma(a+b) over the parameter range, including sums around the overflow point of Gamma (171.62)
+			for _, a := range []float64{0.05, 0.5, 1, 2.5, 10.5, 75.25, 100.25, 171.25, 171.55, 300} {
+				for _, b := range []float64{0.05, 0.5, 1, 0.45, 71.5, 100, 300} {
+					la, _ := math.Lgamma(a)
+					lb, _ := math.Lgamma(b)
+					lab, _ := math.Lgamma(a + b)
+					want := math.Exp(la + lb - lab)
+					sum.Checks++
+					if got := mathx.Beta(a, b); !closeF(got, want, 0, 1e-9) {
+						sum.viol("Beta", c, "Beta(%v,%v)=%.15g want %.15g", a, b, got, want)
+					}
+					if got, sw := mathx.Beta(a, b), mathx.Beta(b, a); !closeF(got, sw, 0, 1e-12) {
+						sum.viol("Beta", c, "Beta(%v,%v)=%v but Beta(%v,%v)=%v", a, b, got, b, a, sw)
+					}
+				}
+			}
 			for _, t := range []struct{ x, w float64 }{{-3, -1}, {math.Inf(-1), -1}, {0, 0}, {math.Copysign(0, -1), 0}, {5e-324, 1}, {math.Inf(1), 1}} {
 				if g := mathx.Sign(t.x); g != t.w {
 					sum.viol("Sign", c, "Sign(%v)=%v want %v", t.x, g, t.w)
